@@ -113,3 +113,17 @@ Example c06_late_add_example :
   exists s0 s1, edf_exec edf_init [OAdd 128; OAdd 1; OPick 1%nat; OPick 1%nat; OAdd 2] = Some s0 /\
                 edf_run s0 [1%nat; 2%nat; 1%nat] = Some s1 /\ List.length (es s0) = 3%nat.
 Proof. eexists; eexists; split; [vm_compute; reflexivity|split; vm_compute; reflexivity]. Qed.
+
+(* Duplicate names in the configured list: the entries live in a map (last occurrence wins, `dedup_last`)
+   and the draw bound is the sum of the STORED weights (checked against the real rule on every run): every
+   stored cluster gets exactly its stored weight, in every storage order. *)
+Theorem c06_cluster_exact_with_duplicate_names : forall cfg, Forall (fun p => 0 <= snd p) cfg ->
+  forall cs', Permutation (dedup_last cfg) cs' -> forall c w, In (c, w) (dedup_last cfg) ->
+  hits wc_cmp cs' c = w.
+Proof. exact cluster_exact_dedup. Qed.
+Print Assumptions c06_cluster_exact_with_duplicate_names.
+
+Example c06_duplicate_names_example :
+  dedup_last [("a"%string, 10); ("b"%string, 20); ("a"%string, 30)] = [("b"%string, 20); ("a"%string, 30)] /\
+  total (dedup_last [("a"%string, 10); ("b"%string, 20); ("a"%string, 30)]) = 50.
+Proof. split; reflexivity. Qed.
